@@ -344,46 +344,106 @@ class Pools:
             return MultiSetup_PreGER(fs=10.0, ref_ind=[list(r) for r in ref], datasets=data)
         return MultiSetup_PoSER(ref_ind=[list(r) for r in ref], single_setups=self.pool, names=["FDD"])
 
+    def fresh(self, case):
+        """a setup object of its own (repeat scenarios keep it for several definitions)"""
+        from pyoma2.setup import SingleSetup
 
-def call_impl(case, pools):
-    """-> ("ok", [field strings], obj) | ("err", ExcName, message)"""
+        return SingleSetup(np.zeros((8, 2)), fs=10.0) if case["path"] == "SingleSetup" else self.obj(case)
+
+
+def build_inputs(case):
+    """the objects handed to the implementation, by sheet name ('sensors names' included)"""
+    func = case["path"] == "func"
+    inp = {}
+    if case["names"] is not None:
+        inp["sensors names"] = mk_names(case["names"])
+    for k, sh in case["sheets"].items():
+        inp[k] = mk_arr(sh) if (sh.get("arr") and not func) else mk_df(sh)
+    return inp
+
+
+def canon(o):
+    """canonical text of an input object (labels and values), to detect that a call modified its caller's table"""
+    if isinstance(o, pd.DataFrame):
+        return "df:" + show_df(o)
+    if isinstance(o, np.ndarray):
+        return "arr:%s:%r" % (o.shape, o.tolist())
+    return "obj:%r" % (o,)
+
+
+def call_impl(case, pools, inputs=None, obj=None):
+    """-> ("ok", [field strings], obj, mutated) | ("err", ExcName, message, mutated);
+    mutated = names of the input tables that differ from their pristine copy after the call"""
     from pyoma2.functions import gen
 
-    kind, S = case["kind"], case["sheets"]
+    kind = case["kind"]
+    inp = build_inputs(case) if inputs is None else inputs
+    before = {k: canon(v) for k, v in inp.items()}
+    changed = lambda: sorted(k for k, v in inp.items() if canon(v) != before[k])
     try:
         if case["path"] == "func":
-            fd = {}
-            if "INFO" in S:
-                fd["INFO"] = mk_df(S["INFO"])
-            if case["names"] is not None:
-                fd["sensors names"] = mk_names(case["names"])
-            for k, sh in S.items():
-                if k != "INFO":
-                    fd[k] = mk_df(sh)
+            fd = dict(inp)  # a fresh dict: the function is documented to edit the dict, never the tables in it
             ref = None if case["ref"] is None else [list(r) for r in case["ref"]]
             r = (gen.check_on_geo1 if kind == "geo1" else gen.check_on_geo2)(fd, ref_ind=ref)
             if kind == "geo1":
                 out = [",".join(map(str, r[0])), show_df(r[1]), show_body(np.asarray(r[2]).tolist())] + [show_arr(x) for x in r[3:]]
             else:
                 out = [",".join(map(str, r[0]))] + [show_df(x) for x in r[1:5]] + [show_arr(x) for x in r[5:]]
-            return ("ok", out, None)
-        o = pools.obj(case)
-        val = lambda k: (mk_arr(S[k]) if S[k].get("arr") else mk_df(S[k]))
+            return ("ok", out, None, changed())
+        o = pools.obj(case) if obj is None else obj
         if kind == "geo1":
-            kw = {ARG1[k]: val(k) for k in G1_OPT if k in S}
-            o.def_geo1(mk_names(case["names"]), val("sensors coordinates"), val("sensors directions"), **kw)
+            kw = {ARG1[k]: inp[k] for k in G1_OPT if k in inp}
+            o.def_geo1(inp.get("sensors names"), inp["sensors coordinates"], inp["sensors directions"], **kw)
             g = o.geo1
             out = [",".join(map(str, g.sens_names)), show_df(g.sens_coord), show_body(np.asarray(g.sens_dir).tolist()),
                    show_arr(g.sens_lines), show_arr(g.bg_nodes), show_arr(g.bg_lines), show_arr(g.bg_surf)]
         else:
-            kw = {ARG2[k]: val(k) for k in G2_OPT if k in S}
-            o.def_geo2(mk_names(case["names"]), val("points coordinates"), val("mapping"), **kw)
+            kw = {ARG2[k]: inp[k] for k in G2_OPT if k in inp}
+            o.def_geo2(inp.get("sensors names"), inp["points coordinates"], inp["mapping"], **kw)
             g = o.geo2
             out = [",".join(map(str, g.sens_names)), show_df(g.pts_coord), show_df(g.sens_map), show_df(g.cstrn), show_df(g.sens_sign),
                    show_arr(g.sens_lines), show_arr(g.sens_surf), show_arr(g.bg_nodes), show_arr(g.bg_lines), show_arr(g.bg_surf)]
-        return ("ok", out, o)
+        return ("ok", out, o, changed())
     except Exception as e:  # noqa: BLE001 - the kind of exception is the observation
-        return ("err", type(e).__name__, str(e)[:160].replace("\n", " "))
+        return ("err", type(e).__name__, str(e)[:160].replace("\n", " "), changed())
+
+
+def run_repeat(scn, pools, ctx):
+    """the SAME table objects used for several definitions (same call twice, def_geo1 then def_geo2, two setups):
+    every resulting geometry is judged against the property on the pristine tables; inputs must stay untouched"""
+    shared, objs = {}, {}
+    for si, step in enumerate(scn["steps"]):
+        site = SITE[step["kind"]][0 if step["path"] == "func" else 1]
+        inp = build_inputs(step)
+        for k in scn["shared"]:
+            if k in inp:
+                inp[k] = shared.setdefault(k, inp[k])
+        o = None
+        if step["path"] != "func":
+            ok_ = (step["path"], step.get("obj", 0))
+            if ok_ not in objs:
+                objs[ok_] = pools.fresh(step)
+            o = objs[ok_]
+        r = call_impl(step, pools, inputs=inp, obj=o)
+        names = oracle_names(step)
+        if names is None or oracle_malformed(step, names):
+            ctx.not_judged += 1
+            ctx.note("repeat scenario with a step the oracle does not judge (generator inconsistency)")
+            return
+        if r[3]:
+            ctx.fail("oracle", "%s modified its caller's table(s) %s (step %d of scenario '%s'): a later definition from the same tables is built from altered data"
+                     % (site, r[3], si + 1, scn["scenario"]), scn, key="C19:%s:input-mutated" % site)
+        if r[0] != "ok":
+            ctx.fail("oracle", "%s: definition %d from the same well-formed tables (scenario '%s') raised %s (%s)" % (site, si + 1, scn["scenario"], r[1], r[2]),
+                     scn, key="C19:%s:repeated-definition-raises-%s" % (site, r[1]))
+            continue
+        exp = oracle_geo(step, names)
+        if exp != r[1]:
+            i, x, y = first_diff(exp, r[1])
+            fld = (["sens_names", "sens_coord", "sens_dir", "sens_lines", "bg_nodes", "bg_lines", "bg_surf"] if step["kind"] == "geo1" else
+                   ["sens_names", "pts_coord", "sens_map", "cstrn", "sens_sign", "sens_lines", "sens_surf", "bg_nodes", "bg_lines", "bg_surf"])[i]
+            ctx.fail("oracle", "%s: definition %d from the same table objects (scenario '%s'): field %s expected %s got %s" % (site, si + 1, scn["scenario"], fld, x, y),
+                     scn, key="C19:%s:repeated-definition:%s" % (site, fld))
 
 
 def collect(ax):
@@ -566,6 +626,11 @@ def faults(kind, case, rng):
     mut("missing:" + other, lambda c: c["sheets"].pop(other), False)
     mut("unknown sheet", lambda c: c["sheets"].update({"sensor lines": lines_sheet(rng, 2, 2)}), False)
     mut("unknown sheet (empty)", lambda c: c["sheets"].update({"Sheet1": sheet([], [], [])}), False)
+    # a sheet of the OTHER template is unknown here too: each such name, one at a time, empty and non-empty
+    own = (G1_REQ + G1_OPT) if kind == "geo1" else (G2_REQ + G2_OPT)
+    for k in [x for x in ((G2_REQ + G2_OPT) if kind == "geo1" else (G1_REQ + G1_OPT)) if x not in own]:
+        mut("unknown sheet:'%s' belongs to the other template" % k, lambda c, k=k: c["sheets"].update({k: sheet(["i", "j", "k"], [1], [[1, 2, 3]])}), False)
+        mut("unknown sheet:'%s' belongs to the other template (empty)" % k, lambda c, k=k: c["sheets"].update({k: sheet([], [], [])}), False)
 
     def cols(c, k, d):
         sh = c["sheets"][k]
@@ -665,7 +730,7 @@ def defect_key(case, exc, what="well-formed-set-raises"):
 
 def run(ctx):
     rng = ctx.rng
-    ctx.extra["rule"] = ("valid table sets (1-6 sensors quick / up to 12 thorough; every row permutation for <= 4; all documented name forms and "
+    ctx.extra["rule"] = ("[inputs of every call compared with pristine copies; repeated definitions from the same table objects judged on the pristine tables] valid table sets (1-6 sensors quick / up to 12 thorough; every row permutation for <= 4; all documented name forms and "
                          "reference layouts; every subset of optional sheets) + every single-fault corruption of them + a malformed-names stream; "
                          "through gen.check_on_geo1/2 and def_geo1/2 of the three setup classes; dfphi_map_func on random tables; mode plots under Agg. "
                          "A case is non-trivial when its table order differs from the name order, or it carries a fault, an optional sheet, "
@@ -680,6 +745,7 @@ def run(ctx):
 
     pools = Pools()
     cases = []
+    repeats = []
 
     def add(kind, path, nm, ref, S, fault=None, plot=None, arr=()):
         c = {"kind": kind, "path": path, "names": nm, "ref": ref, "sheets": cp(S), "fault": fault, "plot": plot}
@@ -695,8 +761,8 @@ def run(ctx):
         for fn in sorted(os.listdir(cdir)):
             if fn.endswith(".json"):
                 for c in json.load(open(os.path.join(cdir, fn)))["cases"]:
-                    cases.append(c)
-    ncorpus = len(cases)
+                    (repeats if c.get("kind") == "repeat" else cases).append(c)
+    ncorpus = len(cases) + len(repeats)
 
     def mk_plot(n, kind):
         nm_ = rng.randint(1, 3)
@@ -793,6 +859,38 @@ def run(ctx):
         S2[key] = sheet(["a", "b"], [1], [["p", 2]])
         add(kind, "func", {"form": "lists", "v": setups}, ref, S2, fault="x:string in an index table")
 
+    # ---- (4b) the SAME table objects used for several definitions (an in-place edit of the caller's table shows only then)
+    COMMON = ["sensors lines", "BG nodes", "BG lines", "BG surfaces"]
+    for rep in range(ctx.n(8, 30)):
+        n = rng.randint(2, min(5, nmax))
+        names = pick_names(rng, n)
+        S1 = gen_geo1(rng, names, extra=rng.randint(0, 1), opts=COMMON)
+        S2 = gen_geo2(rng, names, opts=[x for x in G2_OPT if x in COMMON or x == "sensors surfaces" or rng.random() < 0.5])
+        for k in COMMON:
+            S2[k] = cp(S1[k])
+        form = rng.choice(["list", "row", "arr"])
+        arr = COMMON + ["sensors surfaces"] if rep % 4 == 3 else []  # mostly DataFrames: the caller's object is handed through unchanged
+
+        def mkc(kind, path, S, obj=0):
+            c = {"kind": kind, "path": path, "names": {"form": form, "v": list(names)}, "ref": None, "sheets": cp(S), "fault": None, "plot": None, "obj": obj}
+            for k in arr:
+                if k in c["sheets"] and path != "func":
+                    c["sheets"][k]["arr"] = True
+            return c
+        allk = ["sensors names"] + sorted(set(S1) | set(S2))
+        repeats.append({"kind": "repeat", "scenario": "def_geo1 twice, same tables", "shared": allk, "steps": [mkc("geo1", "SingleSetup", S1)] * 2})
+        repeats.append({"kind": "repeat", "scenario": "def_geo2 three times, same tables", "shared": allk, "steps": [mkc("geo2", "SingleSetup", S2)] * 3})
+        repeats.append({"kind": "repeat", "scenario": "def_geo1 then def_geo2 on one setup, shared lines/background tables", "shared": COMMON + ["sensors names"],
+                        "steps": [mkc("geo1", "SingleSetup", S1), mkc("geo2", "SingleSetup", S2)]})
+        repeats.append({"kind": "repeat", "scenario": "the same tables on two setups", "shared": allk,
+                        "steps": [mkc("geo2", "SingleSetup", S2, 0), mkc("geo2", "SingleSetup", S2, 1), mkc("geo1", "SingleSetup", S1, 1)]})
+        repeats.append({"kind": "repeat", "scenario": "check_on_geo%d twice on the same tables" % (1 + rep % 2), "shared": allk,
+                        "steps": [mkc("geo1", "func", S1) if rep % 2 == 0 else mkc("geo2", "func", S2)] * 2})
+    for scn in repeats:
+        ctx.count(scn, nontrivial=True)
+        ctx.hist("repeat scenario", scn["scenario"].split(",")[0][:40])
+        run_repeat(scn, pools, ctx)
+
     # ---- run the implementation, build model expressions
     exprs, meta = [], []
     for ci, case in enumerate(cases):
@@ -833,12 +931,15 @@ def run(ctx):
                 e += ' ++ "@" ++ showRes showOMat (geo2_points fd rf %s %s) ++ "@" ++ showRes showOMat (geo2_mapped fd rf %s)' % (
                     clist([qc(x) for x in phi]), qc(pl["scale"]), clist([qc(x) for x in phi]))
         exprs.append(e)
-        meta.append((case, names, impl if impl[0] == "err" else impl[:2], plot_out, dfphi_out))
+        meta.append((case, names, impl[:3] if impl[0] == "err" else impl[:2], plot_out, dfphi_out, impl[3]))
     res = ctx.coq_eval(HEADER, exprs, shard=ctx.n(60, 120))
 
-    for (case, names, impl, plot_out, dfphi_out), s in zip(meta, res):
+    for (case, names, impl, plot_out, dfphi_out, mutated), s in zip(meta, res):
         kind, flt = case["kind"], case.get("fault")
         site = SITE[kind][0 if case["path"] == "func" else 1]
+        if mutated:
+            ctx.fail("oracle", "%s modified its caller's table(s) %s: any later definition from the same tables is built from altered data" % (site, mutated),
+                     case, key="C19:%s:input-mutated" % site)
         parts = s.split("@")
         m = parts[0].split("#")
         m_ok = m[0] == "Ok"
